@@ -189,6 +189,13 @@ Theorem T01_connection_stream_exact : forall fr_of ms fuel,
 Proof. intros fr_of ms fuel H. exact (read_conn_app fr_of ms H fuel). Qed.
 Print Assumptions T01_connection_stream_exact.
 
+(* The hypotheses are satisfiable for EVERY body and EVERY chunking of it: each length has a size line (lower-case hex). *)
+Theorem T01_every_chunking_has_a_rendering : forall chunks, Forall (fun d => d <> []) chunks ->
+  let cs := map (fun d => (hex_of (N.of_nat (length d)), d)) chunks in
+  Forall chunk_ok cs /\ last_ok (hex_of 0) /\ concat (map snd cs) = concat chunks.
+Proof. exact every_body_has_a_rendering. Qed.
+Print Assumptions T01_every_chunking_has_a_rendering.
+
 Example T01_stream_example :
   let m1 := ([b "POST /a HTTP/1.1"; b "Host: o"; b "Transfer-Encoding: chunked"],
              WChunked [(b "3", b "abc"); (b "0A;ext=1", b "0123456789")] (b "0")) in
